@@ -167,6 +167,18 @@ func runC12(r *vk.Run) {
 			recs := genBinRecs(rng, steps, mode)
 			env := &MEnv{Recs: recs, Msg: env0.Msg, UnwrapKeeps: env0.UnwrapKeeps, CmpFalse: env0.CmpFalse, CmpFalseBool: env0.CmpFalseBool}
 			left, right := MExpr(c12Leaf("l|both")), MExpr(c12Leaf("r|both"))
+			if rng.Bool() {
+				// the same grouping spelt in another order (or by naming what to remove) is the same grouping:
+				// series match by their label sets
+				rl := c12Leaf("r|both")
+				if rng.Bool() {
+					rl.Group = []string{"b", "a"}
+				} else {
+					rl.Without, rl.Group = true, []string{"v", "msg", "side", "job"}
+				}
+				right = rl
+				c.Count("operands_grouped_in_different_spellings", 1)
+			}
 			lit := &Lit{V: vk.Pick(rng, c12Scalars)}
 			if rng.Chance(1, 3) {
 				lit.Pad = rng.Range(1, 2) // 010 is ten
